@@ -379,6 +379,14 @@ func (c *UConn) handshakeContext(ctx context.Context) (ret error) {
 	if c.isClient {
 		err := c.BuildHandshakeState()
 		if err != nil {
+			if c.quic != nil {
+				// UQUICConn.Start, HandleData and Close wait on these channels
+				// and report handshakeErr: record the error (wrapped like any
+				// other QUIC handshake error) and release them.
+				c.handshakeErr = fmt.Errorf("%w%.0w", err, AlertError(alertInternalError))
+				close(c.quic.blockedc)
+				close(c.quic.signalc)
+			}
 			return err
 		}
 	}
